@@ -166,7 +166,8 @@ class UCCGD(Ansatz):
         qubit_op = self._get_qubit_operator()
         qu_op_dict = qubit_op.terms
 
-        if set(qu_op_dict) != set(self.qu_op_dict):
+        # Rebuild if the terms, or the order in which a build would visit them, have changed
+        if list(qu_op_dict) != [term for term, _ in self.pauli_order]:
             self.build_circuit(var_params)
         else:
             for i, (term, _) in enumerate(self.pauli_order):
